@@ -13,5 +13,5 @@ open(p, 'w').write(s.replace(old, new, 1))
 PY
 ID=$1; shift 4
 mkdir -p /tmp/mutreplays
-VERIF_REPO=$D VERIF_NO_EVIDENCE=1 /verif/check $ID "$@" 2>&1 | grep -v "^WARNING" | tail -6
+VERIF_REPLAY_DIR=$D/replays VERIF_REPO=$D VERIF_NO_EVIDENCE=1 /verif/check $ID "$@" 2>&1 | grep -v "^WARNING" | tail -6
 rm -rf $D
